@@ -3,7 +3,8 @@
 // value::to_int32 / to_uint32 (Kani, all 2^64 bit patterns); this battery is the only link between those
 // helpers and the 13 operator sites inside execute_op, which no verifier here can reach.
 // Expected values are computed independently with integer arithmetic (i128), never with the code
-// under test.  Mounted as a #[cfg(test)] child module of src/lib.rs in a scratch copy.
+// under test.  Second half (number_format_battery): the printing / parsing / formatting clauses of C15 against exact
+// decimal arithmetic (big-integer expansion of m * 2^k) - TESTING, no contract of this family can carry them.  Mounted as a #[cfg(test)] child module of src/lib.rs in a scratch copy.
 //   VERIF-SIDE-FAIL obligation=<name> expr=<js> got=<v> want=<v>
 //   VERIF-SIDE-DONE cases=<n>
 use crate::{Interpreter, JsValue, StepResult};
@@ -69,6 +70,469 @@ fn js_lit(x: f64) -> String {
         let (m, k) = if e == 0 { (frac, -1074) } else { (frac | (1u64 << 52), e - 1075) };
         format!("({}{} * 2**{})", if neg { "-" } else { "" }, m, k)
     }
+}
+
+
+fn eval_str(src: &str) -> Result<String, String> {
+    let mut interp = Interpreter::new();
+    interp.prepare(src, None).map_err(|e| format!("{:?}", e))?;
+    loop {
+        match interp.step().map_err(|e| format!("{:?}", e))? {
+            StepResult::Continue => continue,
+            StepResult::Complete(rv) => {
+                return match rv.value() {
+                    JsValue::String(s) => Ok(s.to_string()),
+                    other => Err(format!("non-string {:?}", other)),
+                };
+            }
+            _ => return Err("unexpected step result".to_string()),
+        }
+    }
+}
+
+// ---- exact decimal arithmetic on doubles (reference for printing / parsing / formatting) ---------------
+// |value| of m * 2^k as (decimal digits most significant first without leading zeros ([0] for zero), scale):
+// value = digits * 10^(-scale).  Big integer in base 1e9, multiplied by 2 or 5 |k| times: exact.
+fn exact_mk(m: u64, k: i32) -> (Vec<u8>, usize) {
+    let mut limbs: Vec<u64> = vec![m % 1_000_000_000, (m / 1_000_000_000) % 1_000_000_000, m / 1_000_000_000_000_000_000];
+    let (f, n) = if k >= 0 { (2u64, k as usize) } else { (5u64, (-k) as usize) };
+    for _ in 0..n {
+        let mut carry = 0u64;
+        for l in limbs.iter_mut() {
+            let v = *l * f + carry;
+            *l = v % 1_000_000_000;
+            carry = v / 1_000_000_000;
+        }
+        if carry > 0 {
+            limbs.push(carry);
+        }
+    }
+    let mut digits: Vec<u8> = Vec::new();
+    for l in limbs.iter().rev() {
+        let s = format!("{:09}", l);
+        digits.extend(s.bytes().map(|b| b - b'0'));
+    }
+    let first = digits.iter().position(|d| *d != 0).unwrap_or(digits.len() - 1);
+    (digits[first..].to_vec(), if k >= 0 { 0 } else { (-k) as usize })
+}
+fn mk_of(x: f64) -> (u64, i32) {
+    let bits = x.abs().to_bits();
+    let e = ((bits >> 52) & 0x7ff) as i32;
+    let frac = bits & ((1u64 << 52) - 1);
+    if e == 0 { (frac, -1074) } else { (frac | (1u64 << 52), e - 1075) }
+}
+fn exact_decimal(x: f64) -> (Vec<u8>, usize) {
+    let (m, k) = mk_of(x);
+    exact_mk(m, k)
+}
+// plain decimal text of digits * 10^(-scale)
+fn plain_text(digits: &[u8], scale: usize) -> String {
+    let mut d: Vec<u8> = digits.to_vec();
+    while d.len() <= scale {
+        d.insert(0, 0);
+    }
+    let ip = d.len() - scale;
+    let mut s: String = d[..ip].iter().map(|c| (b'0' + c) as char).collect();
+    if scale > 0 {
+        s.push('.');
+        s.extend(d[ip..].iter().map(|c| (b'0' + c) as char));
+    }
+    s
+}
+// round (digits, decimal exponent e10 of the first digit) to n significant digits, ties away from zero ("pick the larger n")
+fn round_sig(digits: &[u8], e10: i32, n: usize) -> (Vec<u8>, i32) {
+    let mut d: Vec<u8> = digits.to_vec();
+    if d.len() <= n {
+        d.resize(n, 0);
+        return (d, e10);
+    }
+    let up = d[n] >= 5;
+    d.truncate(n);
+    let mut e = e10;
+    if up {
+        let mut i = n;
+        loop {
+            if i == 0 {
+                d.insert(0, 1);
+                d.truncate(n);
+                e += 1;
+                break;
+            }
+            i -= 1;
+            if d[i] == 9 {
+                d[i] = 0;
+            } else {
+                d[i] += 1;
+                break;
+            }
+        }
+    }
+    (d, e)
+}
+fn dstr(d: &[u8]) -> String {
+    d.iter().map(|c| (b'0' + c) as char).collect()
+}
+fn exp_form(d: &[u8], e: i32) -> String {
+    let mut s = dstr(&d[..1]);
+    if d.len() > 1 {
+        s.push('.');
+        s.push_str(&dstr(&d[1..]));
+    }
+    s.push('e');
+    s.push(if e >= 0 { '+' } else { '-' });
+    s.push_str(&e.abs().to_string());
+    s
+}
+// Number.prototype.toFixed(f) for finite |x| < 1e21, from the exact decimal value
+fn ref_to_fixed(x: f64, f: usize) -> String {
+    let (digits, scale) = exact_decimal(x);
+    let mut d = digits.clone();
+    while d.len() <= scale {
+        d.insert(0, 0);
+    }
+    // d has d.len() - scale integer digits
+    let ip = d.len() - scale;
+    let keep = ip + f;
+    let mut up = false;
+    if keep < d.len() {
+        up = d[keep] >= 5;
+        d.truncate(keep);
+    } else {
+        d.resize(keep, 0);
+    }
+    let mut ipn = ip;
+    if up {
+        let mut i = d.len();
+        loop {
+            if i == 0 {
+                d.insert(0, 1);
+                ipn += 1;
+                break;
+            }
+            i -= 1;
+            if d[i] == 9 {
+                d[i] = 0;
+            } else {
+                d[i] += 1;
+                break;
+            }
+        }
+    }
+    let mut s = String::new();
+    if x < 0.0 {
+        s.push('-');
+    }
+    s.push_str(&dstr(&d[..ipn]));
+    if f > 0 {
+        s.push('.');
+        s.push_str(&dstr(&d[ipn..]));
+    }
+    s
+}
+fn ref_to_exponential(x: f64, fd: usize) -> String {
+    let mut s = String::new();
+    if x < 0.0 {
+        s.push('-');
+    }
+    if x == 0.0 {
+        let z = vec![0u8; fd + 1];
+        s.push_str(&exp_form(&z, 0));
+        return s;
+    }
+    let (digits, scale) = exact_decimal(x);
+    let e10 = digits.len() as i32 - scale as i32 - 1;
+    let (d, e) = round_sig(&digits, e10, fd + 1);
+    s.push_str(&exp_form(&d, e));
+    s
+}
+fn ref_to_precision(x: f64, p: usize) -> String {
+    let mut s = String::new();
+    if x < 0.0 {
+        s.push('-');
+    }
+    if x == 0.0 {
+        s.push('0');
+        if p > 1 {
+            s.push('.');
+            s.push_str(&"0".repeat(p - 1));
+        }
+        return s;
+    }
+    let (digits, scale) = exact_decimal(x);
+    let e10 = digits.len() as i32 - scale as i32 - 1;
+    let (d, e) = round_sig(&digits, e10, p);
+    if e < -6 || e >= p as i32 {
+        s.push_str(&exp_form(&d, e));
+    } else if e >= 0 {
+        let ip = e as usize + 1;
+        s.push_str(&dstr(&d[..ip]));
+        if p > ip {
+            s.push('.');
+            s.push_str(&dstr(&d[ip..]));
+        }
+    } else {
+        s.push_str("0.");
+        s.push_str(&"0".repeat((-(e + 1)) as usize));
+        s.push_str(&dstr(&d));
+    }
+    s
+}
+// integer part (exact, any magnitude: long division of the exact decimal digits) and - for power-of-two radices,
+// where the expansion is finite - the fraction digits of x in the given radix
+fn ref_to_radix(x: f64, radix: u32) -> String {
+    let digit = |v: u32| std::char::from_digit(v, radix).unwrap();
+    let mut s = String::new();
+    if x < 0.0 {
+        s.push('-');
+    }
+    let a = x.abs();
+    let mut fr = a - a.trunc(); // exact
+    let (mut dec, scale) = exact_decimal(a.trunc());
+    if dec != vec![0] && scale > 0 {
+        // an integer written with `scale` fractional digits: they are all zero
+        assert!(dec.len() > scale && dec[dec.len() - scale..].iter().all(|d| *d == 0));
+        dec.truncate(dec.len() - scale);
+    }
+    let mut id = Vec::new();
+    loop {
+        // dec /= radix, remainder -> next digit
+        let mut rem = 0u32;
+        let mut q: Vec<u8> = Vec::with_capacity(dec.len());
+        for d in &dec {
+            let cur = rem * 10 + *d as u32;
+            q.push((cur / radix) as u8);
+            rem = cur % radix;
+        }
+        id.push(digit(rem));
+        let first = q.iter().position(|d| *d != 0);
+        match first {
+            Some(f) => dec = q[f..].to_vec(),
+            None => break,
+        }
+    }
+    s.extend(id.iter().rev());
+    if fr > 0.0 {
+        s.push('.');
+        while fr > 0.0 {
+            fr *= radix as f64; // exact for power-of-two radices
+            let dgt = fr.trunc();
+            s.push(digit(dgt as u32));
+            fr -= dgt;
+        }
+    }
+    s
+}
+
+// what a printed number must satisfy: (digits, decimal exponent of first digit) parsed from the JS text
+fn parse_js_number_text(t: &str) -> Option<(bool, Vec<u8>, i32, bool)> {
+    // -> (negative, significant digits without leading/trailing zeros, e10, exponent_form)
+    let (neg, body) = match t.strip_prefix('-') { Some(r) => (true, r), None => (false, t) };
+    let (mant, exp, ef) = match body.split_once('e') {
+        Some((m, e)) => {
+            if !(e.starts_with('+') || e.starts_with('-')) || e.len() < 2 || e[1..].starts_with('0') { return None; }
+            (m, e.parse::<i32>().ok()?, true)
+        }
+        None => (body, 0, false),
+    };
+    let (ip, fp) = match mant.split_once('.') { Some((a, b)) => (a, b), None => (mant, "") };
+    if ip.is_empty() || !ip.bytes().all(|b| b.is_ascii_digit()) || !fp.bytes().all(|b| b.is_ascii_digit()) { return None; }
+    if mant.contains('.') && (fp.is_empty() || fp.ends_with('0')) { return None; } // no trailing zeros / bare point
+    if ip.len() > 1 && ip.starts_with('0') { return None; }
+    if ef && ip.len() != 1 { return None; }
+    let all: Vec<u8> = ip.bytes().chain(fp.bytes()).map(|b| b - b'0').collect();
+    let first = all.iter().position(|d| *d != 0)?;
+    let last = all.iter().rposition(|d| *d != 0)?;
+    let e10 = exp + ip.len() as i32 - 1 - first as i32;
+    Some((neg, all[first..=last].to_vec(), e10, ef))
+}
+
+fn number_format_battery(seed: u64, extra: usize, fail: &mut dyn FnMut(&str, String)) -> usize {
+    use crate::value::{number_to_string, string_to_number};
+    let mut cases = 0usize;
+    // ---- the families of the property's quantifier -------------------------------------------------
+    let mut xs: Vec<f64> = Vec::new();
+    let nb = |x: f64, v: &mut Vec<f64>| {
+        let b = x.to_bits();
+        for d in [-2i64, -1, 0, 1, 2] {
+            let y = f64::from_bits((b as i64 + d) as u64);
+            if y.is_finite() && y > 0.0 { v.push(y); }
+        }
+    };
+    for k in -1074..=1023 { nb(2f64.powi(k), &mut xs); }
+    for k in -323..=308 { nb(format!("1e{}", k).parse::<f64>().unwrap(), &mut xs); }
+    for e in 0..2047u64 {
+        for frac in [0u64, 1, (1u64 << 52) - 1, 1u64 << 51, 0x000f_ffff_ffff_fffe, 0x0005_5555_5555_5555] {
+            let y = f64::from_bits((e << 52) | frac);
+            if y > 0.0 { xs.push(y); }
+        }
+    }
+    for i in 1..=300u64 { xs.push(f64::from_bits(i)); xs.push(f64::from_bits(i * 0x0000_0123_4567_89ab)); }
+    for c in [2f64.powi(31), 2f64.powi(32), 2f64.powi(53), 1e21, 1e-6, 1e-7, 1e15, 1e16, 1e20] {
+        for d in -40..=40 { let y = c + d as f64 * (if c >= 1e15 { c * 1e-15 } else if c < 1.0 { c * 1e-3 } else { 1.0 }); if y > 0.0 { xs.push(y); } nb(c, &mut xs); }
+    }
+    for t in ["0.1", "0.2", "0.3", "4.35", "1.005", "8.345", "10.235", "2.5", "0.5", "1.45", "123.456", "0.000001234", "1.2345e-7", "6.02214076e23",
+              "1.7976931348623157e308", "5e-324", "2.2250738585072014e-308", "123456789012345680000", "999999999999999900000", "0.30000000000000004",
+              "9.5", "99.5", "0.95", "0.00001", "123456", "1.5", "12345", "1234.5678", "1e21", "1.25", "1.35", "0.045", "1000000000000000128", "0.000035"] {
+        xs.push(t.parse::<f64>().unwrap());
+    }
+    let mut rng = Rng(seed ^ 0xF0C15);
+    for _ in 0..(2000 + extra * 20) {
+        let y = f64::from_bits(rng.next() & 0x7fff_ffff_ffff_ffff);
+        if y.is_finite() && y > 0.0 { xs.push(y); }
+    }
+    // ---- 1. number_to_string: reads back, shortest, prescribed notation -------------------------------
+    for &x in &xs {
+        for &v in &[x, -x] {
+            cases += 1;
+            let t = number_to_string(v);
+            let id = format!("x=0x{:016x} printed {:?}", v.to_bits(), t);
+            let parsed = match parse_js_number_text(&t) {
+                Some(p) => p,
+                None => { fail("number_to_string/ensures#well_formed_js_number_text", format!("sig=malformed {}", id)); continue; }
+            };
+            let (neg, digits, e10, ef) = parsed;
+            if neg != (v < 0.0) { fail("number_to_string/ensures#sign", id.clone()); }
+            // reads back (Rust's parser is correctly rounded and independent of the printing code)
+            let rust_text = format!("{}{}e{}", if neg { "-" } else { "" }, dstr(&digits), e10 - digits.len() as i32 + 1);
+            if rust_text.parse::<f64>().ok() != Some(v) {
+                fail("number_to_string/ensures#reads_back_to_the_same_double", format!("sig=not-round-trip {}", id));
+                continue;
+            }
+            // shortest: neither (k-1)-digit neighbour of the exact value reads back
+            let k = digits.len();
+            if k > 1 {
+                let (ed, es) = exact_decimal(v);
+                let ee = ed.len() as i32 - es as i32 - 1;
+                let mut lo = ed.clone();
+                lo.truncate(k - 1);
+                let (hi, hie) = { let mut t9 = ed.clone(); t9.truncate(k - 1); t9.push(9); round_sig(&t9, ee, k - 1) };
+                for (cd, ce) in [(lo, ee), (hi, hie)] {
+                    let txt = format!("{}e{}", dstr(&cd), ce - cd.len() as i32 + 1);
+                    if txt.parse::<f64>().ok() == Some(v.abs()) {
+                        fail("number_to_string/ensures#shortest_digits", format!("sig=not-shortest {} but {} reads back too", id, txt));
+                    }
+                }
+            }
+            // notation: exponent form exactly when the point position p = e10 + 1 is > 21 or <= -6
+            let p = e10 + 1;
+            if ef != (p > 21 || p <= -6) {
+                fail("number_to_string/ensures#notation_prescribed_by_magnitude", format!("sig=wrong-notation {} p={}", id, p));
+            }
+            // 2. string_to_number reads the printed text, and the full exact expansion, back to the same double
+            cases += 1;
+            if string_to_number(&t).to_bits() != v.to_bits() {
+                fail("string_to_number/ensures#reads_printed_text_back", format!("sig=print-parse {} -> {:e}", id, string_to_number(&t)));
+            }
+        }
+    }
+    // ---- 2b. correctly rounded reading of long decimal strings: exact expansions and midpoints ----------
+    for (i, &x) in xs.iter().enumerate() {
+        if i % 7 != 0 { continue; }
+        cases += 1;
+        let (d, s) = exact_decimal(x);
+        let full = plain_text(&d, s);
+        if string_to_number(&full).to_bits() != x.to_bits() {
+            fail("string_to_number/ensures#correctly_rounded", format!("sig=exact-expansion x=0x{:016x} text of {} chars -> {:e}", x.to_bits(), full.len(), string_to_number(&full)));
+        }
+        let up = f64::from_bits(x.to_bits() + 1);
+        let (m, k) = mk_of(x);
+        if up.is_finite() && mk_of(up).1 == k {
+            // midpoint between x and its successor: (2m+1) * 2^(k-1); ties go to the even mantissa
+            let (md, ms) = exact_mk(2 * m + 1, k - 1);
+            let mid = plain_text(&md, ms);
+            let even = if m % 2 == 0 { x } else { up };
+            let got = string_to_number(&mid);
+            if got.to_bits() != even.to_bits() {
+                fail("string_to_number/ensures#correctly_rounded", format!("sig=midpoint-tie x=0x{:016x} -> 0x{:016x} want 0x{:016x}", x.to_bits(), got.to_bits(), even.to_bits()));
+            }
+            let above = format!("{}{}1", mid, if ms == 0 { "." } else { "" });
+            let got = string_to_number(&above);
+            if got.to_bits() != up.to_bits() {
+                fail("string_to_number/ensures#correctly_rounded", format!("sig=just-above-midpoint x=0x{:016x} -> 0x{:016x} want 0x{:016x}", x.to_bits(), got.to_bits(), up.to_bits()));
+            }
+        }
+    }
+    // ---- 3. in-program: literals, String(x), x.toString(), toFixed / toExponential / toPrecision / toString(radix) ----
+    let mut ys: Vec<f64> = Vec::new();
+    for (i, &x) in xs.iter().enumerate() {
+        if (x >= 1e-9 && x < 1e22 && i % 23 == 0) || i % 211 == 0 { ys.push(x); }
+    }
+    for t in ["0.1", "4.35", "1.005", "8.345", "10.235", "2.5", "0.5", "1.45", "123.456", "0.000001234", "9.5", "99.5", "0.95", "0.00001", "123456", "1.5",
+              "12345", "1234.5678", "1.25", "1.35", "0.045", "0.000035", "1e21", "123456789012345680000", "0.15", "0.25", "0.35", "1e-7", "5e-324", "1.7976931348623157e308"] {
+        ys.push(t.parse::<f64>().unwrap());
+    }
+    let mut batch: Vec<(String, String, String, String)> = Vec::new(); // (obligation, sig, expr, want)
+    for &y in &ys {
+        for &v in &[y, -y] {
+            let lit = js_lit(v);
+            let printed = number_to_string(v);
+            batch.push(("String_of_number".into(), "sig=String(x)".into(), format!("String({})", lit), printed.clone()));
+            batch.push(("Number_prototype_toString".into(), "sig=toString()".into(), format!("({}).toString()", lit), printed.clone()));
+            batch.push(("template_and_concat".into(), "sig=concat".into(), format!("('' + {})", lit), printed.clone()));
+            batch.push(("numeric_literal_correctly_rounded".into(), "sig=literal".into(), format!("String({} === {})", printed, lit), "true".into()));
+            let a = v.abs();
+            if a < 1e21 {
+                for f in [0usize, 1, 2, 3, 7, 20] {
+                    batch.push(("toFixed".into(), format!("sig=toFixed({})", if ref_to_fixed(v, f) != ref_to_fixed(v, f + 30)[..ref_to_fixed(v, f).len().min(ref_to_fixed(v, f + 30).len())] { "rounded" } else { "exact" }),
+                                format!("({}).toFixed({})", lit, f), ref_to_fixed(v, f)));
+                }
+            } else {
+                batch.push(("toFixed".into(), "sig=toFixed(>=1e21)".into(), format!("({}).toFixed(2)", lit), printed.clone()));
+            }
+            for fd in [0usize, 1, 2, 6, 15, 20] {
+                batch.push(("toExponential".into(), "sig=toExponential(d)".into(), format!("({}).toExponential({})", lit, fd), ref_to_exponential(v, fd)));
+            }
+            if let Some((neg, digits, e10, _)) = parse_js_number_text(&printed) {
+                batch.push(("toExponential".into(), "sig=toExponential()".into(), format!("({}).toExponential()", lit),
+                            format!("{}{}", if neg { "-" } else { "" }, exp_form(&digits, e10))));
+            }
+            for p in [1usize, 2, 3, 7, 16, 21] {
+                let want = ref_to_precision(v, p);
+                let sig = if want.contains('e') { "sig=toPrecision(exponent-form)" } else if a < 1.0 { "sig=toPrecision(fixed<1)" } else { "sig=toPrecision(fixed)" };
+                batch.push(("toPrecision".into(), sig.into(), format!("({}).toPrecision({})", lit, p), want));
+            }
+            {
+                for radix in [2u32, 8, 16, 32, 36, 3, 10, 7] {
+                    let frac = a != a.trunc();
+                    if frac && !(radix == 2 || radix == 8 || radix == 16 || radix == 32) { continue; }
+                    let want = if radix == 10 { printed.clone() } else { ref_to_radix(v, radix) };
+                    batch.push(("toString_radix".into(), format!("sig=toString(radix){}", if frac { ":fraction" } else { ":integer" }),
+                                format!("({}).toString({})", lit, radix), want));
+                }
+            }
+        }
+    }
+    for chunk in batch.chunks(150) {
+        let prog = format!("[{}].join('\\u0001')", chunk.iter().map(|c| c.2.clone()).collect::<Vec<_>>().join(", "));
+        match eval_str(&prog) {
+            Ok(out) => {
+                let got: Vec<&str> = out.split('\u{1}').collect();
+                if got.len() != chunk.len() {
+                    fail("formatting_batch", format!("sig=batch-shape got {} results for {} expressions", got.len(), chunk.len()));
+                    continue;
+                }
+                for (c, g) in chunk.iter().zip(got.iter()) {
+                    cases += 1;
+                    if *g != c.3 {
+                        fail(&c.0, format!("{} expr={} got={:?} want={:?}", c.1, c.2, g, c.3));
+                    }
+                }
+            }
+            Err(e) => {
+                // find the failing expression individually
+                for c in chunk {
+                    cases += 1;
+                    match eval_str(&c.2) {
+                        Ok(g) if g == c.3 => {}
+                        Ok(g) => fail(&c.0, format!("{} expr={} got={:?} want={:?}", c.1, c.2, g, c.3)),
+                        Err(e2) => fail(&c.0, format!("{}:error expr={} got={} want={:?}", c.1, c.2, e2.chars().take(100).collect::<String>(), c.3)),
+                    }
+                }
+                let _ = e;
+            }
+        }
+    }
+    cases
 }
 
 struct Rng(u64);
@@ -188,5 +652,17 @@ fn verif_side_c15() {
             check("parseInt_radix", format!("parseInt(\"{}\", {})", digits, js_lit(radix + wrap)), val);
         }
     }
-    println!("VERIF-SIDE-DONE cases={}", cases);
+    // printing / parsing / formatting clauses (testing against exact decimal arithmetic; not proof)
+    let mut seen: std::collections::BTreeSet<String> = Default::default();
+    let mut nf = 0usize;
+    let mut fail2 = |name: &str, what: String| {
+        // one report per (obligation, signature): the signature is the first word of `what`
+        let sig = what.split_whitespace().next().unwrap_or("").to_string();
+        if seen.insert(format!("{} {}", name, sig)) && nf < 60 {
+            nf += 1;
+            println!("VERIF-SIDE-FAIL obligation=side/C15/{} {}", name, what);
+        }
+    };
+    let more = number_format_battery(seed, extra, &mut fail2);
+    println!("VERIF-SIDE-DONE cases={}", cases + more);
 }
